@@ -1,9 +1,11 @@
 package gossipval
 
 import (
+	"context"
 	"fmt"
 	"time"
 
+	"github.com/protolambda/zrnt/eth2/beacon"
 	"github.com/protolambda/zrnt/eth2/beacon/common"
 )
 
@@ -52,4 +54,26 @@ func SyncCommitteeForSlot(spec *common.Spec, epc *common.EpochsContext, slot com
 		return epc.CurrentSyncCommittee
 	}
 	return epc.NextSyncCommittee
+}
+
+// CheckpointBlock returns the root of the checkpoint block of the given epoch on the chain of the given block,
+// i.e. get_checkpoint_block(store, block_root, epoch): the block itself if it is not past the start slot of the epoch,
+// and otherwise the block root that the post-state of the block has in its history for that start slot.
+func CheckpointBlock(ctx context.Context, spec *common.Spec, blockRef beacon.ChainEntry, epoch common.Epoch) (common.Root, error) {
+	startSlot, err := spec.EpochStartSlot(epoch)
+	if err != nil {
+		return common.Root{}, err
+	}
+	if blockRef.Step().Slot() <= startSlot {
+		return blockRef.BlockRoot()
+	}
+	state, err := blockRef.State(ctx)
+	if err != nil {
+		return common.Root{}, err
+	}
+	blockRoots, err := state.BlockRoots()
+	if err != nil {
+		return common.Root{}, err
+	}
+	return blockRoots.GetRoot(startSlot)
 }
